@@ -457,21 +457,17 @@ def idx_r3(ctx):
     for fn, want in (("find_exchange_by_exchange_id", ["eq($1.value, needle)"]),
                      ("find_asset_by_exchange_and_name_internal", ["eq($1.value.exchange, needle_exchange)", "eq($1.value.asset.name_internal, needle_name)"])):
         d = ctx.find(path="barter_instrument::index::" + fn)
-        cl = ctx.closures_of(d)
+        fb = ctx.ibody(d)
         got = []
         key_ok = False
-        for c in cl:
-            cb = ctx.body(c)
-            pb = ctx.body(d)
-            agg = _closure_agg(pb, c)
-            for bi, t, tm in cb.real_calls():
-                cmpc = atoms.cmp_term(tm)
-                if cmpc:
-                    a = mir.in_closure(ctx.facts, agg, cmpc[1]) if agg else cmpc[1]
-                    bb = mir.in_closure(ctx.facts, agg, cmpc[2]) if agg else cmpc[2]
-                    got.append("%s(%s, %s)" % (cmpc[0], render(a), render(bb)))
-                if tm[1].endswith("then_some") and render(tm[2][1]) == "$1.key":
-                    key_ok = True
+        oks = [t for g, t, bi in fb.expanded_cases(0) if t[0] == "agg" and t[1].endswith("Result::Ok")]
+        errs_ok = all(t[0] == "agg" and t[1].endswith(("Result::Ok", "Result::Err")) for g, t, bi in fb.expanded_cases(0))
+        if len(oks) == 1 and errs_ok:
+            fm = common.first_match(ctx, oks[0][3][0])
+            if fm:
+                got = fm[1]
+                key_ok = fm[0] == "haystack" and fm[2] == "$x.key"
+        want = [w.replace("$1", "$x") for w in want]
         ctx.check("index::" + fn, sorted(got) == sorted(want) and key_ok,
                   "returns the key of the element whose own fields equal the needle(s)", got=got, want=want, key="predicate")
 
